@@ -85,7 +85,18 @@ def loop_elem_facts(fn, target_block):
         h = L['header']
         if target_block in L['body'] or h not in dom.get(target_block, ()):
             continue
-        # the target must only be reachable from the loop through its normal exits (the None edge)
+        # the target must only be reachable from the loop through its normal exits (iterator exhaustion: the None edge of
+        # a switch on the discriminant of next()); an early exit (`break`, `return`) that can still reach the target would
+        # mean "some prefix of the elements was tested"
+        early_reaches = False
+        for (src, dst) in L['exits']:
+            si0 = fn.switch_info(src)
+            normal = si0 is not None and si0[0] and all(x[0] == 'discr' and any(
+                m[0] == 'call' and m[1] == 'std::iter::Iterator::next' for m in x[1]) for x in si0[0])
+            if not normal and target_block in fn.reachable(dst):
+                early_reaches = True
+        if early_reaches:
+            continue
         for b in L['body']:
             si = fn.switch_info(b)
             if si is None:
@@ -113,6 +124,8 @@ def loop_elem_facts(fn, target_block):
                 removed = frozenset([(b, edge_t)])
                 ok = True
                 for (src, dst) in L['back_edges']:
+                    if (src, dst) in removed:
+                        continue        # the accepting edge is itself the back edge (`if !ok { break }` as the last test)
                     # is src reachable from header inside the loop without the edge?
                     r = fn.reachable(h, removed=removed, stop=frozenset(x for x in range(fn.nb) if x not in L['body']))
                     if src in r:
@@ -265,6 +278,15 @@ def run(ctx, tier):
         fields = {f['name']: f['ty'] for f in ctx.core.adts[adt]['variants'][0]['fields']}
         oks = ok_blocks(fn)
         if not oks:
+            # a delegating constructor: the result is, on every path, the unchanged result of another fallible constructor of
+            # the same type (which is checked in its own right)
+            rt = set()
+            for rb in fn.return_blocks():
+                rt |= fn.local_terms(0, (rb, fn.nstmts(rb)))
+            ctor_paths = {cb.path for (a2, cb) in ctors if a2 == adt and cb is not b}
+            if rt and all(n[0] == 'call' and n[1] in ctor_paths for n in rt):
+                r_st.inst('%s delegates to %s' % (b.path, sorted({n[1].rsplit('::', 1)[1] for n in rt})), ok=True, nontrivial=False, site=b.loc(0))
+                continue
             r_st.violations.append(Violation('C12', 'C12.stored', b.path, 'no-ok', 'constructor has no Ok return (unrecognised shape)', loc=b.loc(0)))
             continue
         for oi, (ob, osi, ost) in enumerate(oks):
@@ -427,10 +449,16 @@ def _iter_elem_of(ts):
     if m[0] == 'call' and m[1] == 'std::iter::Iterator::next' and m[2]:
         it = m[2][0]
         # slice::iter(X) / iter over &X
-        if len(it) == 1:
+        for _ in range(4):
+            if len(it) != 1:
+                break
             q = next(iter(it))
+            if q[0] == 'call' and q[2] and q[1] in ('std::iter::Iterator::copied', 'std::iter::Iterator::cloned', 'std::iter::Iterator::by_ref'):
+                it = q[2][0]        # element-preserving adaptors
+                continue
             if q[0] == 'call' and q[1] in ('core::slice::<impl [T]>::iter',) and q[2]:
                 return q[2][0]
+            break
         return it
     return None
 
